@@ -136,6 +136,64 @@ def run_big(case, stt):
     stt.label("bits_%02d" % (n.bit_length() // 8 * 8))
 
 
+# -- 3b. call orders from a fresh module state, argument kinds ------------------------------------------------------
+
+
+def _pure57():
+    out = []
+    a = 1
+    while a < 2**62:
+        b = a
+        while b < 2**62:
+            out.append(b)
+            b *= 7
+        a *= 5
+    return sorted(out)
+
+
+PURE57 = _pure57()
+INT_KINDS = {"int": int, "np.int64": np.int64, "np.uint64": np.uint64, "np.intp": np.intp}
+
+
+@st.composite
+def order_case(draw):
+    tab = O.smooth_table()
+    one = st.one_of(st.sampled_from(PURE57), st.sampled_from(PURE57), st.sampled_from(tab), st.integers(0, 2**62 - 1),
+                    st.sampled_from([2**53, 2**60, 3 * 2**58, 35 * 2**55, 2**61, 2**31, 2**32, 2**24]))
+    calls = []
+    for _ in range(draw(st.integers(1, 8))):
+        n = min(2**62 - 1, max(0, draw(one) + draw(st.sampled_from([0, 0, 0, 1, -1, 5, 129]))))
+        calls.append([draw(st.sampled_from(["next", "prev", "prev", "both"])), n, draw(st.sampled_from(sorted(INT_KINDS)))])
+    return {"calls": calls}
+
+
+def run_orders(case, stt):
+    """a call sequence in drawn order starting from a FRESH state of pulsarbat.utils (module re-executed: its caches and tables start empty),
+    with N given as a Python int or a NumPy integer scalar; every answer against the 7-smooth table"""
+    import importlib
+    import pulsarbat.utils as U0
+
+    U = importlib.reload(U0)
+    biggest = 0
+    rising = 0
+    for which, n, kind in case["calls"]:
+        arg = INT_KINDS[kind](n)
+        for fn, exp, txt in (("next", O.next_smooth(n), "smallest 7-smooth number >= N"), ("prev", O.prev_smooth(n), "largest 7-smooth number <= N")):
+            if which not in (fn, "both"):
+                continue
+            with lib("%s_fast_len(%s(%d))" % (fn, kind, n)):
+                got = getattr(U, fn + "_fast_len")(arg)
+            check(int(got) == exp and got == exp, "{}_fast_len({}({})) = {} but the {} is {} (calls so far: {})", fn, kind, n, got, txt, exp,
+                  case["calls"][: case["calls"].index([which, n, kind]) + 1])
+        if n >= 2 * biggest and n > 10:
+            rising += 1
+        biggest = max(biggest, n)
+    stt.nt(rising >= 2 or any(k != "int" and n > 2**53 for _, n, k in case["calls"]))
+    stt.label("calls_%d" % len(case["calls"]))
+    for _, n, k in case["calls"]:
+        stt.label("kind_" + k)
+
+
 # -- 4. fast_len on signals -----------------------------------------------------------------------
 
 
@@ -174,6 +232,11 @@ SUBS = [
             "seeded 10 % of the rest; thorough: all 75 711); non-trivial = N > 10 and N not 7-smooth"),
     Sub("random_N", big_n(), run_big, "Hypothesis integers in [0, 2^62) skewed to k*2^j+-d and near-smooth products; "
         "non-trivial = N > 10 and not 7-smooth", quick=3000, thorough=200000),
+    Sub("call_orders", order_case(), run_orders,
+        "1..8 next/prev_fast_len calls in drawn order from a fresh state of pulsarbat.utils (module re-executed at the start of every case), N "
+        "drawn from the pure 5^a*7^b numbers, all 7-smooth numbers, powers of two and random values (+-1, +5, +129), given as Python int / "
+        "np.int64 / np.uint64 / np.intp; non-trivial = at least two calls whose N is at least twice every earlier N, or a NumPy integer above 2^53",
+        quick=1600, thorough=100000),
     Sub("fast_len_signal", fl_strategy(), run_fast_len, "signals of every class, length 0..5000; non-trivial = length > 10 "
         "and not 7-smooth (so samples are actually dropped)", quick=600, thorough=20000),
 ]
